@@ -108,7 +108,7 @@ var coldSeq atomic.Int64
 func Cold(h logger.Handler) {
 	defer func() { recover() }()
 	t := time.Unix(1_000_000_000+coldSeq.Add(1), 0).In(time.FixedZone("COLD", -(11*3600 + 600)))
-	h.Handle(context.Background(), slog.NewRecord(t, slog.Level(100), "cold", 0))
+	h.Handle(context.Background(), slog.NewRecord(t, logger.LevelInfo, "cold", 0))
 }
 
 func NewRecord(level slog.Level, msg string, attrs ...slog.Attr) slog.Record {
